@@ -1,0 +1,27 @@
+//go:build verif
+
+// Machine-checked contracts for this package (comment-only; compiled only with
+// the build tag `verif`). Read by /verif/engine (govc); see /verif/DESIGN.md.
+package backend
+
+// ---- reserved-word data (C16) -------------------------------------------------------
+//
+// The namers escape a user identifier by appending "_" or "_N" when it is in the
+// table. Obligations on the data itself: the words the HLSL language reserves
+// (list taken from the HLSL reference "Keywords"/"Reserved Words", not from this
+// table) are present; no entry ends in "_" or in "_<digits>" (otherwise an
+// escaped name could collide with another entry).
+//
+//@ table C16 HLSLReservedKeywords
+//@   contains AppendStructuredBuffer asm asm_fragment BlendState bool break Buffer ByteAddressBuffer case cbuffer centroid class
+//@   contains column_major compile compile_fragment CompileShader const continue ComputeShader ConsumeStructuredBuffer default DepthStencilState DepthStencilView discard
+//@   contains do double DomainShader dword else export extern false float for fxgroup GeometryShader
+//@   contains groupshared half Hullshader if in inline inout InputPatch int interface line lineadj
+//@   contains linear LineStream matrix min16float min10float min16int min12int min16uint namespace nointerpolation noperspective NULL
+//@   contains out OutputPatch packoffset pass pixelfragment PixelShader point PointStream precise RasterizerState RenderTargetView return
+//@   contains register row_major RWBuffer RWByteAddressBuffer RWStructuredBuffer RWTexture1D RWTexture1DArray RWTexture2D RWTexture2DArray RWTexture3D sample sampler
+//@   contains SamplerState SamplerComparisonState shared snorm stateblock stateblock_state static string struct switch StructuredBuffer tbuffer
+//@   contains technique technique10 technique11 texture Texture1D Texture1DArray Texture2D Texture2DArray Texture2DMS Texture2DMSArray Texture3D TextureCube
+//@   contains TextureCubeArray true typedef triangle triangleadj TriangleStream uint uniform unorm unsigned vector vertexfragment
+//@   contains VertexShader void volatile while
+//@   none-suffix _
